@@ -7,7 +7,7 @@
 import logging
 from collections import defaultdict
 from itertools import chain
-from typing import Callable, Iterator, Optional
+from typing import Callable, Iterable, Iterator, Optional
 
 from clingo.ast import (
     AST,
@@ -571,6 +571,16 @@ class MinMaxAggregator:
         # (also would require more complex variable bindings)
         return ret
 
+    @staticmethod
+    def _result_only_weight(oldmax: AST, idx: int, varname: str, other_terms: Iterable[AST]) -> bool:
+        """true if variable varname is exactly the aggregate result of literal oldmax and is used nowhere else"""
+        args = oldmax.atom.symbol.arguments
+        if len(args) <= idx or args[idx].ast_type != ASTType.Variable or args[idx].name != varname:
+            return False
+        if any(var.name == varname for i, arg in enumerate(args) if i != idx for var in collect_ast(arg, "Variable")):
+            return False
+        return not any(var.name == varname for term in other_terms for var in collect_ast(term, "Variable"))
+
     def _replace_results_in_minimize(self, stm: AST, minimizes: dict[tuple[AST, ...], list[AST]]) -> list[AST]:
         """
         return list of statements that replaces the minimize statement
@@ -634,6 +644,9 @@ class MinMaxAggregator:
         # the result may only be the weight: a condition on it is a condition on the maximum, not on chain links
         if any(var.name == varname for cond in rest_cond for var in collect_ast(cond, "Variable")):
             log.info(f"Cannot use chaining in {loc2str(stm.location)} as the result is used in another condition.")
+            return [stm]
+        if not self._result_only_weight(oldmax, minmaxpred[2], varname, term_tuple[1:]):
+            log.info(f"Cannot use chaining in {loc2str(stm.location)} as the weight is not exactly the result.")
             return [stm]
 
         # check if all Variables from old predicate are used in the tuple identifier
@@ -722,6 +735,8 @@ class MinMaxAggregator:
 
         # the result may only be the weight: a condition on it is a condition on the maximum, not on chain links
         if any(var.name == varname for cond in rest_cond for var in collect_ast(cond, "Variable")):
+            return [elem]
+        if not self._result_only_weight(old_max, minmaxpred[2], varname, term_tuple[1:]):
             return [elem]
 
         # check if all Variables from old predicate are used in the tuple identifier
